@@ -6,29 +6,32 @@
 #define V (resp.headers.connection.second)
 #define HAS (resp.headers.has_connection)
 #define VER (resp.httpVersion)
-#define VER10 (VER.n == 3 && ((VER.p[0] == (char)49) & (VER.p[1] == (char)46) & (VER.p[2] == (char)48)))
+#define VER10 ((VER.n == 3) & (RDQ(VER, 0) == (char)49) & (RDQ(VER, 1) == (char)46) & (RDQ(VER, 2) == (char)48))
 #define OKRET (__CPROVER_return_value)
 #define RRC_PRE \
-__CPROVER_requires(IORA_TRUE && V.n <= RRC_MAXLEN && __CPROVER_is_fresh(V.p, V.n) && VER.n <= 64 && __CPROVER_is_fresh(VER.p, VER.n) && !G_ka_valid) \
+/* std::string buffers hold size()+1 bytes (terminating NUL) */ \
+__CPROVER_requires(IORA_TRUE && V.n <= RRC_MAXLEN && __CPROVER_is_fresh(V.p, V.n + 1) && VER.n <= 64 && __CPROVER_is_fresh(VER.p, VER.n + 1) && !G_ka_valid) \
 __CPROVER_assigns(RRC_GHOSTS)
 
 /* proof "rrc_safety": built-in checks, shim preconditions (substr pos <= size), frame, invariant, variant (termination) */
 bool HttpClient_responseRequestsClose_safety(const HttpClient *self, RResponse resp)
 RRC_PRE
-/* C4 */ __CPROVER_ensures(!HAS ==> (OKRET == VER10))
+/* C4 */ __CPROVER_ensures(!HAS ==> (OKRET == (VER10 != 0)))
 ;
 /* proof "rrc_sound": a "close" list element anywhere => true (GS, GA, GE arbitrary: every element) */
 bool HttpClient_responseRequestsClose_sound(const HttpClient *self, RResponse resp)
 RRC_PRE
-/* C1 */ __CPROVER_ensures((HAS && TOKH(V, GS, GA, GE, 5, CLOSE_BYTES)) ==> OKRET)
+/* C1 */ __CPROVER_ensures((HAS & TOKH(V, GS, GA, GE, 5, CLOSE_BYTES)) ==> OKRET)
 ;
-/* proof "rrc_complete": true only for a witnessed "close" element, or by the version default when NO element is "keep-alive";
- *                       false under HTTP/1.0 only for a witnessed "keep-alive" element */
-bool HttpClient_responseRequestsClose_complete(const HttpClient *self, RResponse resp)
+/* proof "rrc_ka": true only for a witnessed "close" element, or by the version default when NO element is "keep-alive" (invariant J3) */
+bool HttpClient_responseRequestsClose_ka(const HttpClient *self, RResponse resp)
 RRC_PRE
-/* C2 */ __CPROVER_ensures(OKRET ==> ((HAS && WITTOK(V, G_w_pos, G_tok_a, G_w_end, 5, CLOSE_BYTES)) || (VER10 && !(HAS && TOKH(V, GS, GA, GE, 10, KA_BYTES)))))
-/* C3 */ __CPROVER_ensures((!OKRET && VER10) ==> (HAS && G_ka_valid && WITTOK(V, G_ka_pos, G_ka_a, G_ka_end, 10, KA_BYTES)))
-/* C4 */ __CPROVER_ensures(!HAS ==> (OKRET == VER10))
+/* C2 */ __CPROVER_ensures(OKRET ==> ((HAS & WITTOK(V, G_w_pos, G_tok_a, G_w_end, 5, CLOSE_BYTES)) | (VER10 & !(HAS & TOKH(V, GS, GA, GE, 10, KA_BYTES)))))
+;
+/* proof "rrc_witness": false under HTTP/1.0 only for a witnessed "keep-alive" element (invariant J4) */
+bool HttpClient_responseRequestsClose_witness(const HttpClient *self, RResponse resp)
+RRC_PRE
+/* C3 */ __CPROVER_ensures(((!OKRET) & VER10) ==> (HAS & G_ka_valid & WITTOK(V, G_ka_pos, G_ka_a, G_ka_end, 10, KA_BYTES)))
 ;
 void h_rrc(void)
 {
